@@ -119,7 +119,10 @@ def main():
         meta['repo_head'] = sh(['git', '-C', '/repo', 'rev-parse', '--short',
                                 a.base])[1].strip()
         env = {'PYTHONPATH': wt, 'PYTHONDONTWRITEBYTECODE': '1'}
-        if not a.skip_confirm:
+        merged = meta.get('applied', '').startswith('three-way')
+        if merged or not a.skip_confirm:
+            # (a merged change is confirmed again: a merge may apply cleanly
+            # and still not be the change that was delivered)
             rc, out = sh('%s -m pytest -q -p no:cacheprovider -x 2>&1 | tail -3'
                          % PY, env=env, cwd=wt)
             m = re.search(r'(\d+) passed', out)
@@ -142,6 +145,10 @@ def main():
             meta['confirmed'] = ok_suite and rc0 == 0 and rc1 != 0
             if not meta['confirmed']:
                 print('NOT CONFIRMED', out0[-300:], out1[-300:])
+                if merged:
+                    print('patch does not apply: the three-way merge onto '
+                          'HEAD is not the delivered change any more')
+                    return 2
         for p in props:
             t0 = time.time()
             rc, out = sh([PY, os.path.join(VERIF, 'vcheck.py'), '--property',
@@ -189,6 +196,9 @@ def main():
             oc = old.get('checks', {})
             oc.update(meta['checks'])
             meta['checks'] = oc
+            for k in old:       # history, origin, written_for, status, ...
+                if k not in meta:
+                    meta[k] = old[k]
         with open(mp, 'w') as f:
             json.dump(meta, f, indent=1)
             f.write('\n')
